@@ -251,11 +251,7 @@ func c03(r *core.Run) {
 	}
 	// derive constants by role
 	var started, stopped, starting, stopping int64 = -1, -1, -1, -1
-	for _, op := range ops {
-		if op.Op == "store" && op.Fn == a.Serve {
-			started = op.New
-		}
-	}
+	started = startedConst(p, a, ops)
 	var serveCallers []*ssa.Function
 	for _, c := range callsTo(root, a.Serve) {
 		serveCallers = append(serveCallers, c.Parent())
@@ -684,26 +680,7 @@ func c03(r *core.Run) {
 		}
 		r.Check(via == "", "S5", core.FuncName(fn), "message-handler-publishes-only-through-enqueue", p.Pos(fn.Pos()), "the listener goroutine never touches the connection directly", "the message handler, which runs on the listener goroutine that Shutdown does not wait for, can publish directly ("+via+"): a request still buffered when Shutdown clears the connection dereferences a nil connection (panic in the goroutine blocked in Serve)")
 	}
-	{
-		// enqueue itself
-		guardOK := false
-		var firstLock ssa.Instruction
-		// (the critical section may live in a private helper of enqueue: the lock is then judged
-		// under the edges of the helper's call sites as well)
-		for _, c := range helperCalls(p, a.Enqueue) {
-			if e.lockOp(c) == "lock" && firstLock == nil {
-				firstLock = c
-			}
-		}
-		if firstLock != nil {
-			for _, ed := range ctxEdges(p, firstLock, a.Enqueue, 0) {
-				if startedEdge(ed, started) {
-					guardOK = true
-				}
-			}
-		}
-		r.Check(guardOK, "S5", core.FuncName(a.Enqueue), "started-check-dom-queue-access", posOf(p, firstLock), "submissions are refused unless the service is started", "enqueue touches the queue without a dominating state==started check")
-	}
+	c03EnqueueStartedCheck(r, "S5", a, e, started)
 	for _, fn := range methodsOf(p, "", a.S) {
 		if fn.Object() == nil || !fn.Object().Exported() {
 			continue
@@ -1166,4 +1143,56 @@ func helperChecksStarted(p *core.Prog, h *ssa.Function, mayPub map[*ssa.Function
 		return false
 	}
 	return n > 0
+}
+
+// startedConst: the constant serve stores to publish the started state - the
+// store that is not preceded by serve's wait for its workers (a serve that also
+// stores the stopped state at its very end has two stores).
+func startedConst(p *core.Prog, a *svcAnchors, ops []stateOp) int64 {
+	var started int64 = -1
+	last := int64(-1)
+	waits := workerWaitSites(p, a.Serve, a)
+	for _, op := range ops {
+		if op.Op != "store" || op.Fn != a.Serve {
+			continue
+		}
+		last = op.New
+		late := false
+		for _, w := range waits {
+			if p.ReachesIn(a.Serve, w, op.Instr) {
+				late = true
+			}
+		}
+		if !late && started == -1 {
+			started = op.New
+		}
+	}
+	if started == -1 {
+		return last
+	}
+	return started
+}
+
+// c03EnqueueStartedCheck: enqueue takes the queue lock only on the edge on
+// which it has seen the started state (C03.S5; shared with C16.H2, where the
+// atomic load is the barrier that publishes serve's unlocked initialisation).
+func c03EnqueueStartedCheck(r *core.Run, rule string, a *svcAnchors, e *lockEngine, started int64) {
+	p := r.P
+	guardOK := false
+	var firstLock ssa.Instruction
+	// (the critical section may live in a private helper of enqueue: the lock is then judged
+	// under the edges of the helper's call sites as well)
+	for _, c := range helperCalls(p, a.Enqueue) {
+		if e.lockOp(c) == "lock" && firstLock == nil {
+			firstLock = c
+		}
+	}
+	if firstLock != nil {
+		for _, ed := range ctxEdges(p, firstLock, a.Enqueue, 0) {
+			if startedEdge(ed, started) {
+				guardOK = true
+			}
+		}
+	}
+	r.Check(guardOK, rule, core.FuncName(a.Enqueue), "started-check-dom-queue-access", posOf(p, firstLock), "submissions are refused unless the service is started", "enqueue touches the queue without a dominating state==started check")
 }
